@@ -67,6 +67,7 @@ class Opts:
         self.source_rs = True  # False: every Source gets rs = 0
         self.similar_sources = False  # all sources within x0.8..1.25 of the first one
         self.leaf_loads = True
+        self.neg_axes = False  # one table in six written with negative breakpoints
         self.zero_duration = False  # one phase (never all) may last exactly 0 s
         self.mux_focus = False  # a PMux in most systems, >= 2 inputs, 2-D ig table, and the
         #                         first declared input often a dead source
@@ -380,7 +381,14 @@ class _Gen:
         o, draw = self.o, self.draw
         if not o.tables or v0 == 0.0 or not self.chance(1, 3):
             return v0
-        return make_table(draw, zkey, v0, io, vi, lo, hi, cap, o.table_min_step)
+        t = make_table(draw, zkey, v0, io, vi, lo, hi, cap, o.table_min_step)
+        if o.neg_axes and self.chance(1, 6):
+            # the same table from a sink's point of view: strictly increasing as written
+            t["io"] = [-x for x in reversed(t["io"])]
+            t[zkey] = [list(reversed(r)) for r in t[zkey]]
+            if self.chance(1, 2):
+                t["vi"] = [-v for v in t["vi"]]
+        return t
 
     # ---- decorations -----------------------------------------------------------------
     def _decorate(self, spec):
